@@ -21,6 +21,7 @@ import (
 	"fmt"
 	"hash/fnv"
 	"os"
+	"regexp"
 	"runtime/debug"
 	"sort"
 	"strconv"
@@ -80,8 +81,50 @@ func (r *Run) Sample(v any) {
 
 // Fail reports a violation of the property under check and ends the run, unless the
 // signature is a listed known finding, in which case it is noted and the run goes on.
+var reHex = regexp.MustCompile(`0x[0-9a-fA-F]+`)
+
+// stable removes what differs between two processes executing the same run from a message:
+// a stack trace is reduced to the functions of the code under test (and its libraries) with
+// file:line, addresses are dropped.
+func stable(msg string) string {
+	i := strings.Index(msg, "goroutine ")
+	if i < 0 || !strings.Contains(msg[i:], "\n\t") {
+		return reHex.ReplaceAllString(msg, "0x?")
+	}
+	head, stack := msg[:i], msg[i:]
+	lines := strings.Split(stack, "\n")
+	var frames []string
+	for k := 0; k+1 < len(lines); k++ {
+		fn, loc := strings.TrimSpace(lines[k]), lines[k+1]
+		if !strings.HasPrefix(loc, "\t") || !strings.Contains(loc, ".go:") {
+			continue
+		}
+		loc = strings.TrimSpace(loc)
+		if strings.Contains(loc, "/zz_") || strings.Contains(loc, "/zzverif/") || strings.Contains(loc, "/src/runtime/") || strings.Contains(loc, "/src/testing/") {
+			continue
+		}
+		if j := strings.LastIndex(fn, "("); j > 0 {
+			fn = fn[:j]
+		}
+		if j := strings.LastIndex(fn, "/"); j >= 0 {
+			fn = fn[j+1:]
+		}
+		if j := strings.Index(loc, " +0x"); j > 0 {
+			loc = loc[:j]
+		}
+		if j := strings.LastIndex(loc, "/"); j >= 0 {
+			loc = loc[j+1:]
+		}
+		frames = append(frames, fn+" ("+loc+")")
+		if len(frames) >= 8 {
+			break
+		}
+	}
+	return reHex.ReplaceAllString(strings.TrimRight(head, "\n"), "0x?") + "\n  in: " + strings.Join(frames, " <- ")
+}
+
 func (r *Run) Fail(sig, format string, a ...any) {
-	msg := fmt.Sprintf(format, a...)
+	msg := stable(fmt.Sprintf(format, a...))
 	if r.Known[sig] {
 		if _, ok := r.KnownHit[sig]; !ok {
 			r.KnownHit[sig] = msg
@@ -170,12 +213,53 @@ func execute(tb *testing.T, prop, tier string, tape *simrt.Tape, keepLog int) (r
 				// a panic that escaped the property function: harness trouble unless the
 				// property function converted it itself
 				st := string(debug.Stack())
-				r.Viol = &Violation{Prop: prop, Sig: "harness/panic", Msg: fmt.Sprintf("panic: %v\n%s", x, st)}
+				sig := "harness/panic"
+				// whose panic is it? the first frame below the panic call decides: a frame of the
+				// code under test (or of a library it calls) makes it a violation, a harness frame
+				// makes it trouble of the check itself
+				if fn := panicOrigin(fmt.Sprint(x)); fn != "" { // a panic inside a bubble arrives re-thrown with its original stack as text
+					sig = "panic/in-code-under-test/" + fn
+				} else if fn := panicOrigin(st); fn != "" && !strings.Contains(fmt.Sprint(x), "goroutine ") {
+					sig = "panic/in-code-under-test/" + fn
+				}
+				r.Viol = &Violation{Prop: prop, Sig: sig, Msg: fmt.Sprintf("panic: %v\n%s", x, st)}
 			}
 		}()
 		f(r)
 	}()
 	return
+}
+
+// panicOrigin returns the function in which a panic was raised if that function belongs to
+// the code under test or to a library (not to the harness, the simulator or the runtime's
+// own panic plumbing); "" otherwise.
+func panicOrigin(stack string) string {
+	lines := strings.Split(stack, "\n")
+	seenPanic := false
+	for i := 0; i+1 < len(lines); i++ {
+		fn, loc := strings.TrimSpace(lines[i]), strings.TrimSpace(lines[i+1])
+		if strings.HasPrefix(fn, "panic(") {
+			seenPanic = true
+			continue
+		}
+		if !seenPanic || !strings.Contains(loc, ".go:") {
+			continue
+		}
+		if strings.Contains(loc, "/src/runtime/") {
+			continue
+		}
+		if strings.Contains(loc, "/zz_") || strings.Contains(loc, "/zzverif/") || strings.Contains(loc, "/src/testing/") {
+			return ""
+		}
+		if j := strings.LastIndex(fn, "("); j > 0 {
+			fn = fn[:j]
+		}
+		if j := strings.LastIndex(fn, "/"); j >= 0 {
+			fn = fn[j+1:]
+		}
+		return fn
+	}
+	return ""
 }
 
 func envInt(k string, def int) int {
